@@ -162,7 +162,7 @@ def _compile(scratch, d):
                 kinds = ["int32", "int64", "uint64", "sint32", "sint64", "fixed32", "fixed64", "bool", "string", "bytes", "double", "float", "msg", "enum"]
                 kinds += ["uint32", "sfixed32", "sfixed64"]
                 more = {"int32@2": "E_Decl2_E2Int32", "string@2": "E_Decl2_E2String", "int64@f": "E_FInt64", "msg@f": "E_FMsg", "int32@n": "E_Plain_Deep_E3Int32",
-                        "int32@d": "E_Decl3_E4Int32", "string@d": "E_Decl3_E4String"}
+                        "int32@d": "E_Decl3_E4Int32", "string@d": "E_Decl3_E4String", "string@m": "E_WithMap_Inner_E5String"}
                 exts = ", Exts: map[string]interface{}{" + ", ".join(['"%s": %s.E_Decl_E%s' % (k, alias, k[0].upper() + k[1:]) for k in kinds] +
                                                                       ['"%s": %s.%s' % (k, alias, v) for k, v in sorted(more.items())]) + "}"
             regs.append('\t\t{Key: "%s/%s/%s/%s", Set: "%s", Flavour: "%s", Base: "%s", GoName: "%s", New: func() interface{} { return new(%s.%s) }%s},'
